@@ -4,7 +4,8 @@ read ONLY the implementation's observations (so a failing one is a concrete repl
 import hashlib, json, os, re
 import common as c
 
-SIZE = {"quick": (150, 22), "thorough": (3000, 40)}
+SIZE = {"quick": (300, 22), "thorough": (3600, 40)}
+SHARDS = {"quick": 6, "thorough": 12}      # the driver runs on one processor (see its quiesce()): shards run side by side
 OPK = ("INIT", "BB", "TX", "AW", "BU", "EB", "CM", "RS", "HM")
 POW = 1000000
 
@@ -71,6 +72,52 @@ def parse_histories(ops_path, impl_path, model_path):
     return hists
 
 
+def run_sharded(a, n, blocks, out):
+    """runs the driver as SHARDS processes over disjoint history-id ranges (shard 0 has the run's seed, shard k a seed derived
+    from it) and concatenates their observation files; returns an error text or None"""
+    import shutil, subprocess
+    k = SHARDS[a.tier]
+    per = (n + k - 1) // k
+    os.makedirs(out, exist_ok=True)
+    procs = []
+    for j in range(k):
+        d = os.path.join(out, "shard-%d" % j)
+        os.makedirs(d, exist_ok=True)
+        seed = a.seed if j == 0 else a.seed * 1000003 + j
+        cmd = [os.path.join(c.HARNESS, "bin", "app"), "-seed", str(seed), "-n", str(per), "-blocks", str(blocks), "-idbase", str(j * per), "-out", d]
+        procs.append((j, d, subprocess.Popen(cmd, cwd=c.HARNESS, stdout=subprocess.PIPE, stderr=subprocess.STDOUT)))
+    failed = None
+    for j, d, p in procs:
+        try:
+            o, _ = p.communicate(timeout=3400)
+        except subprocess.TimeoutExpired:
+            p.kill()
+            o = b"timeout"
+        if p.returncode != 0 and failed is None:
+            failed = (d, o.decode("utf-8", "replace"))
+    if failed is not None:
+        d, log = failed
+        for f in ("app.ops", "app.impl", "app.inflight"):        # what the failed shard had observed so far
+            if os.path.exists(os.path.join(d, f)):
+                shutil.copy(os.path.join(d, f), os.path.join(out, f))
+        return "app driver failed: " + log[-1500:]
+    for f in ("app.ops", "app.impl", "app.det", "app.xi", "app.qry", "app.gv"):
+        with open(os.path.join(out, f), "wb") as w:
+            for j, d, p in procs:
+                fp = os.path.join(d, f)
+                if os.path.exists(fp):
+                    with open(fp, "rb") as r:
+                        shutil.copyfileobj(r, w)
+    stats = {}
+    for j, d, p in procs:
+        for key, val in json.load(open(os.path.join(d, "app.stats.json"))).items():
+            stats[key] = stats.get(key, 0) + val
+    json.dump(stats, open(os.path.join(out, "app.stats.json"), "w"), indent=1, sort_keys=True)
+    for j, d, p in procs:
+        shutil.rmtree(d, ignore_errors=True)
+    return None
+
+
 def run_engine_cached(a, res):
     n, blocks = SIZE[a.tier]
     binp = os.path.join(c.HARNESS, "bin", "app")
@@ -84,9 +131,9 @@ def run_engine_cached(a, res):
                 if d.startswith("app-%s-%d-" % (a.tier, a.seed)) and d != os.path.basename(out):
                     import shutil
                     shutil.rmtree(os.path.join(c.WORK, d), ignore_errors=True)
-            rc, log = c.run_engine("app", ["-seed", str(a.seed), "-n", str(n), "-blocks", str(blocks)], out, timeout=3400)
-            if rc != 0:
-                return out, "app driver failed: " + log[-1500:]
+            err = run_sharded(a, n, blocks, out)
+            if err:
+                return out, err
             open(done, "w").write("ok")
         if res.coq_ok and res.ocaml_ok:
             mh = hashlib.sha256(open(os.path.join(c.OCAML, "modelrun"), "rb").read()).hexdigest()[:16]
